@@ -177,6 +177,10 @@ def HSt.step (old : Bool) (hs : HSt) : Op → HSt
   | .json e => hs.json e
   | _ => hs
 
+def HSt.run (old : Bool) (hs : HSt) : List Op → HSt
+  | [] => hs
+  | o :: ops => (hs.step old o).run old ops
+
 /-- the kind state of entity `e` as lists: (Kinds, AddedKinds, DeletedKinds) -/
 def HSt.kindsOf (hs : HSt) (e : Bool) : List Kind × List Kind × List Kind :=
   (hs.readAt (hidx e 0), hs.readAt (hidx e 1), hs.readAt (hidx e 2))
